@@ -678,6 +678,10 @@ def _task14(arg):
             bad = set()
             pc = build(expr)
             pc.compile()
+            ps, pcs = build(expr), build(expr)
+            pcs.compile()
+            if os.path.exists(os.path.join(td, 'shared.txt')):
+                os.remove(os.path.join(td, 'shared.txt'))
             for i, content in enumerate(contents):
                 path = os.path.join(td, 'f%d.txt' % i)
                 if content == '@PATH@':
@@ -686,6 +690,12 @@ def _task14(arg):
                     fh.write(content)
                 text = open(path, encoding='utf-8').read()
                 cnt['files'] += 1
+                # the same instance also reads one path whose file is rewritten for every content (a history of files behind one path)
+                shared = os.path.join(td, 'shared.txt')
+                prev = open(shared, encoding='utf-8').read() if os.path.exists(shared) else None
+                if content != path:
+                    with open(shared, 'w', encoding='utf-8', newline='') as fh:
+                        fh.write(content)
                 for meth, kw in PATH_METHODS:
                     if meth in bad:
                         continue
@@ -705,6 +715,29 @@ def _task14(arg):
                                       "assert norm(p.%s(f, is_path=True, **kw)) == norm(p.%s(%r, **kw))\np.compile()\n"
                                       "assert norm(p.%s(f, is_path=True, **kw)) == norm(p.%s(%r, **kw))"
                                       % (expr, content, kw, meth, meth, content, meth, meth, content)))
+                        continue
+                    if content == path:
+                        continue
+                    cnt['observations'] += 2
+                    a = b
+                    for inst in (ps, pcs):     # these two instances never read any other path
+                        try:
+                            a = _call(inst, meth, shared, kw, True)
+                        except Exception as e:  # noqa: BLE001
+                            a = 'raised ' + type(e).__name__
+                        if a != b:
+                            break
+                    if a != b:
+                        bad.add(meth)
+                        viol.append(V('C14|%s|%s|is_path|rewritten' % (expr, meth),
+                                      f"{expr}: after the file behind the path was rewritten from {prev!r} to {text!r}, {meth}(path, is_path=True) = {a!r} but on the content it is {b!r}",
+                                      "import tempfile, os\np = %s\nd = tempfile.mkdtemp()\nf = os.path.join(d, 'f.txt')\nkw = %r\n"
+                                      "def norm(v):\n    return v if isinstance(v, (str, bool, list)) else list(v)\n"
+                                      "for compiled in (False, True):\n    if compiled:\n        p.compile()\n"
+                                      "    open(f, 'w', encoding='utf-8').write(%r)\n    norm(p.%s(f, is_path=True, **kw))\n"
+                                      "    open(f, 'w', encoding='utf-8').write(%r)\n"
+                                      "    assert norm(p.%s(f, is_path=True, **kw)) == norm(p.%s(%r, **kw))"
+                                      % (expr, kw, prev or '', meth, content, meth, meth, content)))
                 # context windows on the text
                 if 'win' in bad:
                     continue
